@@ -303,7 +303,7 @@ class Runner(object):
                 "numbers.Number": NUMERIC | {"number"}, "numbers.Real": NUMERIC | {"number"}, "numbers.Integral": {"int", "bool"}, "builtins.bool": {"bool"}, "builtins.int": {"int", "bool"}, "builtins.float": {"float"},
                 "six.string_types": {"str"}, "builtins.str": {"str"}, "six.text_type": {"str"}, "builtins.bytes": set(),
                 "builtins.list": LISTS, "builtins.tuple": TUPLES, "builtins.dict": DICTS, "numpy.ndarray": {"ndarray"},
-                "builtins.type": {"type"}, "six.integer_types": {"int", "bool"},
+                "builtins.type": {"type"}, "six.integer_types": {"int", "bool"}, "numpy.generic": set(), "numpy.number": set(), "numpy.floating": set(), "numpy.integer": set(),
             }.get(q)
             if m is None:
                 if q.endswith("commands.Command"):
@@ -390,6 +390,13 @@ class Runner(object):
                 return res if isinstance(op, ast.Eq) else not res
             if isinstance(op, (ast.Is, ast.IsNot)):
                 if isinstance(t.comparators[0], ast.Constant) and t.comparators[0].value is None:
+                    key0 = "@" + _src(t.left)
+                    if key0 in env:
+                        l = env[key0]  # decided earlier on this path
+                    elif l.kinds == {"obj"} and (l.tag or "").startswith("self.") and isinstance(t.left, ast.Attribute):
+                        # a configuration attribute of the parameter object (output_type, is_fuzzy, value_type ...): set or not,
+                        # depending on how the parameter was declared - both are explored
+                        l = V({"obj", "none"}, derived=l.derived, tag=l.tag)
                     if "none" not in l.kinds:
                         return isinstance(op, ast.IsNot)
                     if l.kinds == {"none"}:
@@ -928,6 +935,11 @@ class Runner(object):
             return V({"none"})
         if q in ("numpy.issubdtype", "numpy.isscalar"):
             return V({"bool"})
+        if q in ("numpy.asarray", "numpy.array", "numpy.ascontiguousarray", "numpy.asanyarray", "numpy.ma.asarray", "numpy.ma.asanyarray", "numpy.ma.array", "numpy.atleast_1d"):
+            # a data value is in general a MaskedArray: only asanyarray / the numpy.ma forms (without copy) hand a masked array back
+            # as the object it is; asarray() / array() return a plain ndarray - another object, the mask gone
+            same = q in ("numpy.asanyarray", "numpy.ma.asarray", "numpy.ma.asanyarray") and a0 is not None and a0.kinds == {"ndarray"}
+            return V({"ndarray"}, ident=bool(same and a0.ident), tag=None if same else "converted-array", derived=not same)
         raise Unsupported("%s call of %s is outside Engine D's operation table" % (getattr(e, "lineno", "?"), q))
 
     def inline(self, m, A, K, e):
